@@ -243,7 +243,11 @@ def run(ctx):
                 if zero_pattern:
                     # structural zeros in G for ALL cone types (the scaled columns W^-T G[:,k] of 'q' and 's' blocks are
                     # dense although G[:,k] is not): code that relies on the sparsity pattern of G surviving the scaling
-                    GGp = GGp * np.array([[1.0 if rng.random() < 0.5 else 0.0 for _ in range(n)] for _ in range(dims.Np)]).reshape(dims.Np, n)
+                    msk = np.array([[1.0 if rng.random() < 0.5 else 0.0 for _ in range(n)] for _ in range(dims.Np)]).reshape(dims.Np, n)
+                    msk[:dims.mnl, :] = 1.0            # the rows of Df stay dense: only G has the pattern
+                    if rng.random() < 0.5 and n > 1:
+                        msk[dims.mnl:, rng.randrange(n)] = 0.0      # a variable that occurs in no linear inequality (empty column of G)
+                    GGp = GGp * msk
             B = gp.rand_sv_matrix(rng, n, r, 0.5, 2.0) if r else np.zeros((n, 0))
             stack = np.vstack([B.T, GGp, A])
             if stack.shape[0] >= n and np.linalg.svd(stack, compute_uv=False)[-1] >= 0.2 and \
